@@ -36,7 +36,8 @@ def gen(tier, rng, shard, nshards):
                "max_iters": S.pick(rng, ["1", "2", "n//2", "n-1", "n", "n+5", "default"]), "tol": float(S.pick(rng, [1e-12, 1e-12, 1e-8, 1e-5, 1e-3, 0.0, 1e-300])),
                "fn": S.pick(rng, ["lanczos", "lanczos", "lanczos", "lanczos_eigs", "Lanczos()"]),
                "scale": float(S.pick(rng, [1.0, 1.0, 1e6, 1e-6])), "real_start": bool(rng.random() < 0.3), "wide_start": bool(rng.random() < 0.25),
-               "vscale": float(S.pick(rng, [1.0, 1.0, 1.0, 1e-12, 1e-30, 1e-9, 1e15])), "bwidth": S.pick(rng, ["3", "3", "2", "n"])}
+               "vscale": float(S.pick(rng, [1.0, 1.0, 1.0, 1e-12, 1e-30, 1e-9, 1e15])), "bwidth": S.pick(rng, ["3", "3", "2", "n"]),
+               "narrow_op": bool(rng.random() < 0.15)}
         if rng.random() < 0.08:
             # hollow (bipartite) operators [[0, B], [B^H, 0]] with a start vector supported on the first block: the first Rayleigh
             # quotient is *exactly* zero, and the Krylov space is exhausted numerically (not exactly) after 2p < n steps
@@ -250,6 +251,20 @@ def run_case(ctx, case):
     for key in ("family", "start", "max_iters", "fn"):
         ctx.count(key, case[key])
     A = cola.SelfAdjoint(cola.ops.Dense(M))
+    if case.get("narrow_op") and case["start"] in ("generic", "batched") and case["family"] in ("simple", "indefinite", "clustered", "repeated") and v is not None:
+        # an operator stored in single precision (or in an integer dtype) with a double-precision start vector: the
+        # factorisation runs in the promoted (double) precision on the operator's stored *values* (which the reference uses too)
+        if case["seed"] % 4 == 0 and not np.iscomplexobj(M) and case.get("scale", 1.0) == 1.0:
+            Mn = np.round(M * 8).astype(np.int64)
+            Mn = (Mn + Mn.T) // 2 * 2 // 2
+            Mn = np.triu(Mn) + np.triu(Mn, 1).T
+        else:
+            Mn = M.astype(np.complex64 if np.iscomplexobj(M) else np.float32)
+            Mn = ((Mn + Mn.conj().T) / 2).astype(Mn.dtype)
+        M = Mn.astype(M.dtype)
+        lam, Qtrue, d = np.linalg.eigvalsh(M), None, None
+        A = cola.SelfAdjoint(cola.ops.Dense(Mn))
+        ctx.count("operator_storage", str(Mn.dtype))
     if case["start"] == "exchange-operator":
         A = cola.SelfAdjoint(cola.ops.LinearOperator(M.dtype, M.shape, matmat=lambda X: X[::-1]))
     if case["start"] == "identity-operator":
@@ -267,7 +282,7 @@ def run_case(ctx, case):
         preds["start_wider_than_operator"] = True
     kw = {"tol": case["tol"]}
     if mi is not None:
-        kw["max_iters"] = mi
+        kw["max_iters"] = P.count_form(mi, case["seed"] // 3)
     if v is None:
         kw["key"] = 11
         v_used = np_fns.randn(n, dtype=M.dtype, key=11)
